@@ -272,6 +272,27 @@ def run(ctx):
         genprogs = None
         ctx.notes.append("shared program generator not available: %r" % (e,))
     feat = {}
+    # enumerated matrices (gen/matrix.py, gen/matrix2.py): a slice in quick, everything in thorough
+    from gen import matrix, matrix2
+    mprogs = matrix.all_programs() + matrix2.all_programs()
+    if ctx.tier == "quick":
+        off = ctx.seed % 6
+        mprogs = mprogs[off::6]
+
+    def mone(a):
+        i, (k, src) = a
+        return k, src, run_both(ctx, warun, src, "mx%d" % i)
+    with cf.ThreadPoolExecutor(16) as ex:
+        mres = list(ex.map(mone, enumerate(mprogs)))
+    dist["matrix_programs"] = len(mres)
+    dist["matrix_mismatch"] = 0
+    for k, src, (wst, wl, gst, gl) in mres:
+        if gst != "ok":
+            continue
+        if wst != "ok" or [l.rstrip() for l in wl] != [l.rstrip() for l in gl]:
+            dist["matrix_mismatch"] += 1
+            ctx.violation("matrix:%s/%s" % k, "feature-matrix program %s/%s: Wa (%s) %s vs Go %s" % (k[0], k[1], wst, " | ".join(l.strip() for l in wl)[:160], " | ".join(l.strip() for l in gl)[:160]),
+                          {"program": src, "wa_status": wst, "wa": wl[:8], "go": gl[:8]})
     if genprogs is not None:
         count = 40 if ctx.tier == "quick" else 600
         plist = []
